@@ -25,8 +25,8 @@ import time
 HERE = os.path.dirname(os.path.abspath(__file__))
 REPO = os.environ.get("VERIF_REPO", "/repo")
 OVERLAY = os.path.join(HERE, "contracts", "in_crate")
-EVIDENCE = os.path.join(HERE, "evidence")
-REPLAYS = os.path.join(HERE, "replays")
+EVIDENCE = os.environ.get("VERIF_EVIDENCE_DIR") or os.path.join(HERE, "evidence")
+REPLAYS = os.environ.get("VERIF_REPLAYS_DIR") or os.path.join(HERE, "replays")
 KNOWN = os.path.join(HERE, "known_findings.json")
 NCPU = os.cpu_count() or 4
 
@@ -356,13 +356,14 @@ LEMMAS = {
 def discover_lemmas():
     out = []
     for f in sorted(glob.glob(os.path.join(HERE, "lemmas", "*.rs"))):
-        props, tier = [], "quick"
+        props, tier, expect = [], "quick", "pass"
         for line in open(f):
-            m = re.match(r"// @lemma props=(\S+)(?: tier=(\S+))?", line)
+            m = re.match(r"// @lemma props=(\S+)(?: tier=(\S+))?(?: expect=(\S+))?", line)
             if m:
                 props = m.group(1).split(",")
                 tier = m.group(2) or "quick"
-        out.append((f, props, tier))
+                expect = m.group(3) or "pass"
+        out.append((f, props, tier if expect == "pass" else tier + ":canary"))
     return out
 
 
@@ -529,7 +530,7 @@ def check(prop, tier, keep=False, only=None):
     hs = select(hs_all, prop, tier)
     if only:
         hs = [h for h in hs if h.name in only]
-    lemmas = [(f, ps, t) for (f, ps, t) in discover_lemmas() if prop in ps and (tier == "thorough" or t == "quick")]
+    lemmas = [(f, ps, t) for (f, ps, t) in discover_lemmas() if prop in ps and (tier == "thorough" or t.split(":")[0] == "quick")]
     if not hs and not lemmas:
         log("no harness or lemma registered for", prop)
         return 2
@@ -634,7 +635,14 @@ def check(prop, tier, keep=False, only=None):
                 violations.append((h, r, descs))
             else:
                 undecided.append("harness %s: %s\n%s" % (h.name, r["status"], r["raw"][-1500:]))
+        lemma_canary = {os.path.basename(f): t.endswith(":canary") for (f, ps, t) in lemmas}
         for name, r in lemma_results.items():
+            if lemma_canary.get(name):
+                ok = r["status"] == "failed" and r["errors"] >= 1
+                canaries.append({"harness": name, "flavour": "verus", "status": r["status"], "canary_ok": ok, "expect": "fail"})
+                if not ok:
+                    undecided.append("verus canary %s was not rejected (%s): lemma layer not trusted" % (name, r["status"]))
+                continue
             entry = {"harness": name, "functions_under_contract": "lemmas over contracts/spec_core.rs", "flavour": "verus", "checks": r["verified"] + r["errors"], "failed": r["errors"],
                      "status": r["status"], "solver_s": r.get("smt_s") or r["time_s"], "expect": "pass", "back_end": "verus 0.2026.09.13 / z3"}
             per_harness.append(entry)
